@@ -88,3 +88,619 @@ end PsdVerif.Generated.ClipModes
 """
     ctx.write_generated("ClipModes", src)
     return info
+
+
+# =====================================================================================================
+# Part 2: which public mutator recomputes -> Generated/ClipCurrent.lean
+#
+# A small abstract interpreter over the AST of api/*.py. For every method of the API classes it flattens
+# the body (helpers and other mutators inlined by name, `self`/parameters substituted textually) into a
+# stream of EFFECTS on the inputs of the clipping relation:
+#   mut(owner, what, guards)    a raw change: `<owner>._layers.<list mutation>`, `<owner>._layers[...] = / del`,
+#                               `<owner>._record.clipping = `, a `blend_mode` assignment on a record or divider
+#                               block, `<owner>._compatibility_mode = `, `<owner>._record = `
+#   rec(owner, guards)          `_clear_clipping_layers()` reached inside `_compute_clipping_layers()` called on the
+#                               document of <owner> (`X._psd._compute…` -> owner X; `psd = self if isinstance(self,
+#                               PSDImage) else self._psd` -> owner self)
+#   store(owner, what, guards)  an assignment to `_clip_layers` / `_has_clip_target` outside the pass
+#   other(src)                  something relevant that could not be classified
+# `guards` are the tests of the enclosing `if`s (numbered per visit, so that two `if`s with the same text
+# differ), negated for `else` and for code after an `if … return`; tests of the form "<the document of the
+# owner> is (not) None" are dropped from a rec. A loop body is a segment of its own.
+# A changed source never raises: what is not understood becomes `other`, which `tableOk` rejects.
+# =====================================================================================================
+import re
+
+LISTMUT = {"append", "extend", "insert", "remove", "pop", "clear", "reverse", "sort",
+           "__setitem__", "__delitem__", "__iadd__", "__imul__"}
+LISTNAMES = LISTMUT | {"index", "count", "copy"}
+STORED = {"_clip_layers", "_has_clip_target"}
+EXEMPT_STORE = {("PSDImage", "_clear_clipping_layers"), ("PSDImage", "_compute_clipping_layers"), ("Layer", "__init__")}
+LAYERISH_ANN = re.compile(r"Layer|GroupMixin|Group|PSDImage|Self|Artboard")
+MAX_DEPTH = 12
+
+
+class _Api:
+    """Classes and methods of api/*.py."""
+
+    def __init__(self):
+        self.classes = {}        # name -> (ClassDef, [base names])
+        self.methods = {}        # (cls, name, kind) -> FunctionDef      kind: "method" | "setter" | "getter"
+        self.by_name = {}        # (name, kind) -> [cls]
+        self.imported = set()    # names bound by import statements anywhere in api/*.py (modules, foreign classes)
+        for f in sorted(API.glob("*.py")):
+            try:
+                tree = ast.parse(f.read_text())
+            except SyntaxError:
+                continue
+            for n in ast.walk(tree):
+                if isinstance(n, (ast.Import, ast.ImportFrom)):
+                    for a in n.names:
+                        self.imported.add((a.asname or a.name).split(".")[0])
+            for c in tree.body:
+                if not isinstance(c, ast.ClassDef):
+                    continue
+                bases = [ast.unparse(b).split(".")[-1] for b in c.bases]
+                self.classes[c.name] = (c, bases)
+                for fn in c.body:
+                    if not isinstance(fn, ast.FunctionDef):
+                        continue
+                    kind = "method"
+                    for d in fn.decorator_list:
+                        s = ast.unparse(d)
+                        if s == "property":
+                            kind = "getter"
+                        elif s.endswith(".setter"):
+                            kind = "setter"
+                    self.methods[(c.name, fn.name, kind)] = fn
+                    self.by_name.setdefault((fn.name, kind), []).append(c.name)
+
+    def mro(self, cls):
+        out, todo = [], [cls]
+        while todo:
+            c = todo.pop(0)
+            if c in out or c not in self.classes:
+                continue
+            out.append(c)
+            todo += self.classes[c][1]
+        return out
+
+    def resolve(self, cls, name, kind="method"):
+        for c in self.mro(cls):
+            if (c, name, kind) in self.methods:
+                return c
+        return None
+
+
+def _subst(node, env):
+    """Unparse with the names of `env` replaced by their (already normal) expressions."""
+
+    class R(ast.NodeTransformer):
+        def visit_Name(self, n):
+            if n.id in env:
+                try:
+                    return ast.parse(env[n.id], mode="eval").body
+                except SyntaxError:
+                    return n
+            return n
+
+    import copy
+    return ast.unparse(R().visit(copy.deepcopy(node)))
+
+
+def _norm(src):
+    """`X._psd` -> doc(X); `_parent` -> parent."""
+    src = src.replace("._parent", ".parent")
+    prev = None
+    while prev != src:
+        prev = src
+        src = re.sub(r"((?:[A-Za-z_][\w]*|doc\([^()]*\))(?:\.parent|\[[^\[\]]*\])*)\._psd\b", r"doc(\1)", src)
+    return src
+
+
+def _owner(src):
+    """The object a (normal) expression hangs off: strip attributes down to a name, `.parent`, doc(…), a subscript."""
+    try:
+        n = ast.parse(src, mode="eval").body
+    except SyntaxError:
+        return src
+    while isinstance(n, ast.Attribute) and n.attr != "parent":
+        n = n.value
+    return ast.unparse(n)
+
+
+class _Flat:
+    def __init__(self, api):
+        self.api = api
+        self.events = []
+        self.gid = 0
+        self.effectful = None
+
+    # ---- which method names can have an effect at all (fixpoint over names) -----------------------------
+    def compute_effectful(self):
+        eff = set()
+        raw = {}
+        for key, fn in self.api.methods.items():
+            raw[key] = self._has_raw(fn)
+        changed = True
+        while changed:
+            changed = False
+            for key, fn in self.api.methods.items():
+                if key in eff:
+                    continue
+                if raw[key] or any(isinstance(n, ast.Call) and isinstance(n.func, ast.Attribute)
+                                   and any((c, n.func.attr, "method") in eff for c in self.api.by_name.get((n.func.attr, "method"), []))
+                                   for n in ast.walk(fn)):
+                    eff.add(key)
+                    changed = True
+        self.effectful = eff
+
+    @staticmethod
+    def _has_raw(fn):
+        for n in ast.walk(fn):
+            if isinstance(n, ast.Attribute) and n.attr in ({"_layers", "_compatibility_mode", "_compute_clipping_layers",
+                                                             "_clear_clipping_layers"} | STORED):
+                return True
+            if isinstance(n, ast.Attribute) and n.attr in ("clipping", "blend_mode") and isinstance(n.ctx, (ast.Store, ast.Del)):
+                return True
+        return False
+
+    # ---- statements --------------------------------------------------------------------------------------
+    def emit(self, *ev):
+        self.events.append(ev)
+
+    def flatten(self, cls, fn, env, guards, depth, stack, layerish):
+        """env: name -> normal expression; layerish: set of local names known to denote API objects."""
+        env = dict(env)
+        layerish = set(layerish)
+        for a in fn.args.args + fn.args.kwonlyargs:
+            if a.annotation is not None and LAYERISH_ANN.search(ast.unparse(a.annotation)) and a.arg not in env:
+                layerish.add(a.arg)
+        self.block(cls, fn, fn.body, env, list(guards), depth, stack, layerish)
+
+    def block(self, cls, fn, stmts, env, guards, depth, stack, layerish):
+        for st in stmts:
+            if isinstance(st, ast.Expr) and isinstance(st.value, ast.Constant):
+                continue                                             # docstring
+            if isinstance(st, (ast.FunctionDef, ast.ClassDef, ast.Import, ast.ImportFrom, ast.Pass, ast.Assert,
+                               ast.Global, ast.Nonlocal)):
+                continue
+            if isinstance(st, ast.If):
+                self.gid += 1
+                g = "g%d:%s" % (self.gid, _norm(_subst(st.test, env)))
+                gn = "g%d:not(%s)" % (self.gid, _norm(_subst(st.test, env)))
+                self.exprs(cls, fn, st.test, env, guards, depth, stack, layerish)
+                dead = re.match(r"g\d+:None is not None\b", g) is not None      # a defaulted parameter
+                if not dead:
+                    self.block(cls, fn, st.body, env, guards + [g], depth, stack, layerish)
+                self.block(cls, fn, st.orelse, env, guards + ([] if dead else [gn]), depth, stack, layerish)
+                if dead:
+                    continue
+                if self._terminates(st.body):
+                    guards = guards + [gn]
+                elif st.orelse and self._terminates(st.orelse):
+                    guards = guards + [g]
+                continue
+            if isinstance(st, (ast.For, ast.While)):
+                it = st.iter if isinstance(st, ast.For) else st.test
+                self.exprs(cls, fn, it, env, guards, depth, stack, layerish)
+                inner_layerish = set(layerish)
+                if isinstance(st, ast.For) and isinstance(st.target, ast.Name):
+                    env = {k: v for k, v in env.items() if k != st.target.id}
+                    src = _norm(_subst(st.iter, env))
+                    if self._layerish_iter(src, layerish, fn):
+                        inner_layerish.add(st.target.id)
+                self.emit("loop_begin")
+                mark = len(self.events)
+                self.block(cls, fn, st.body, env, guards, depth, stack, inner_layerish)
+                if len(self.events) == mark:
+                    self.events.pop()                                # nothing happens inside: no segment boundary
+                else:
+                    self.emit("loop_end")
+                self.block(cls, fn, st.orelse, env, guards, depth, stack, layerish)
+                continue
+            if isinstance(st, ast.Try):
+                self.block(cls, fn, st.body, env, guards, depth, stack, layerish)
+                for h in st.handlers:
+                    self.gid += 1
+                    self.block(cls, fn, h.body, env, guards + ["g%d:except" % self.gid], depth, stack, layerish)
+                self.block(cls, fn, st.orelse, env, guards, depth, stack, layerish)
+                self.block(cls, fn, st.finalbody, env, guards, depth, stack, layerish)
+                continue
+            if isinstance(st, ast.With):
+                for w in st.items:
+                    self.exprs(cls, fn, w.context_expr, env, guards, depth, stack, layerish)
+                self.block(cls, fn, st.body, env, guards, depth, stack, layerish)
+                continue
+            # simple statements: first the calls of the right-hand side / expression, then the stores
+            if isinstance(st, (ast.Assign, ast.AnnAssign, ast.AugAssign)):
+                if st.value is not None:
+                    self.exprs(cls, fn, st.value, env, guards, depth, stack, layerish)
+                targets = st.targets if isinstance(st, ast.Assign) else [st.target]
+                for t in targets:
+                    self.store(cls, fn, t, st, env, guards)
+                # aliases
+                if isinstance(st, (ast.Assign, ast.AnnAssign)) and st.value is not None and len(targets) == 1 \
+                        and isinstance(targets[0], ast.Name):
+                    name = targets[0].id
+                    v = st.value
+                    src = _norm(_subst(v, env))
+                    m = re.fullmatch(r"(.+?) if isinstance\((.+?), PSDImage\) else doc\((.+)\)", src)
+                    if m and m.group(1) == m.group(2) == m.group(3):
+                        env[name] = "doc(%s)" % m.group(1)
+                    elif isinstance(v, (ast.Name, ast.Attribute)):
+                        env[name] = src
+                        if self._layerish_expr(src, layerish):
+                            layerish.add(name)
+                    else:
+                        env.pop(name, None)
+                        if isinstance(v, ast.Call) and isinstance(v.func, (ast.Name, ast.Attribute)):
+                            callee = ast.unparse(v.func)
+                            if callee in ("cls", "kls") or callee.split(".")[-1] in ("new", "group_layers") \
+                                    or callee.split(".")[-1] in self.api.classes:
+                                layerish.add(name)
+                continue
+            if isinstance(st, ast.Delete):
+                for t in st.targets:
+                    self.store(cls, fn, t, st, env, guards)
+                continue
+            if isinstance(st, (ast.Expr, ast.Return, ast.Raise)):
+                v = st.value if not isinstance(st, ast.Raise) else st.exc
+                if v is not None:
+                    self.exprs(cls, fn, v, env, guards, depth, stack, layerish)
+                continue
+            if isinstance(st, (ast.Break, ast.Continue)):
+                continue
+            self.emit("other", "statement %s in %s.%s" % (type(st).__name__, cls, fn.name))
+
+    @staticmethod
+    def _terminates(stmts):
+        return bool(stmts) and isinstance(stmts[-1], (ast.Return, ast.Raise, ast.Continue, ast.Break))
+
+    def _layerish_expr(self, src, layerish):
+        root = re.match(r"[A-Za-z_]\w*", src)
+        return src in ("self", "cls") or src.endswith(".parent") or src.startswith("doc(") \
+            or (root is not None and root.group(0) in layerish and re.fullmatch(r"[\w\.\[\]\-0-9]+", src) is not None
+                and not src.endswith("._layers"))
+
+    def _layerish_iter(self, src, layerish, fn):
+        if src in ("self", "self._layers", "self._layers[:]") or src.endswith(".descendants()") or src.startswith("reversed(self"):
+            return True
+        root = re.match(r"[A-Za-z_]\w*", src)
+        if root and root.group(0) in layerish:
+            return True
+        for a in fn.args.args:
+            if a.arg == src and a.annotation is not None and LAYERISH_ANN.search(ast.unparse(a.annotation)):
+                return True
+        return False
+
+    # ---- stores -------------------------------------------------------------------------------------------
+    def store(self, cls, fn, t, st, env, guards):
+        if isinstance(t, (ast.Tuple, ast.List)):
+            for e in t.elts:
+                self.store(cls, fn, e, st, env, guards)
+            return
+        if isinstance(t, ast.Subscript):
+            base = t.value
+            if isinstance(base, ast.Name) and base.id in env and env[base.id].endswith("._layers"):
+                self.emit("mut", _owner(env[base.id][:-len("._layers")]), "_layers[]" + ("del" if isinstance(st, ast.Delete) else "="), guards)
+                return
+            if isinstance(base, ast.Attribute) and base.attr == "_layers":
+                self.emit("mut", _owner(_norm(_subst(base.value, env))), "_layers[]" + ("del" if isinstance(st, ast.Delete) else "="), guards)
+            elif isinstance(base, ast.Attribute) and base.attr in STORED:
+                self.emit("store", _owner(_norm(_subst(base.value, env))), base.attr + "[]", guards)
+            return
+        if not isinstance(t, ast.Attribute):
+            return
+        base = _norm(_subst(t.value, env))
+        if t.attr == "_layers":
+            if fn.name == "__init__" and base == "self" and cls != "PSDImage":
+                return                                               # a new object's own empty list
+            self.emit("mut", _owner(base), "_layers=", guards)
+        elif t.attr in STORED:
+            if (cls, fn.name) in EXEMPT_STORE:
+                return
+            self.emit("store", _owner(base), t.attr, guards)
+        elif t.attr == "clipping":
+            self.emit("mut", _owner(base), "clipping", guards)
+        elif t.attr == "blend_mode":
+            raw = base.endswith("._record") or "_setting" in base or "get_data(" in base or base in ("record", "setting")
+            if raw:
+                self.emit("mut", _owner(base), "blend_mode", guards)
+            else:
+                self.emit("other", "assignment to %s.blend_mode in %s.%s" % (base, cls, fn.name))
+        elif t.attr in ("clipping_layer", "compatibility_mode"):
+            self.emit("other", "assignment to %s.%s in %s.%s" % (base, t.attr, cls, fn.name))
+        elif t.attr == "_compatibility_mode":
+            self.emit("mut", _owner(base), "_compatibility_mode", guards)
+        elif t.attr == "_record":
+            if fn.name == "__init__" and base == "self":
+                return
+            self.emit("mut", _owner(base), "_record", guards)
+
+    # ---- calls inside an expression, in source order -------------------------------------------------------
+    def exprs(self, cls, fn, node, env, guards, depth, stack, layerish):
+        calls = [n for n in ast.walk(node) if isinstance(n, ast.Call)]
+        calls.sort(key=lambda n: (getattr(n, "end_lineno", 0), getattr(n, "end_col_offset", 0)))
+        in_comp = set()
+        for n in ast.walk(node):
+            if isinstance(n, (ast.ListComp, ast.SetComp, ast.DictComp, ast.GeneratorExp, ast.Lambda)):
+                for c in ast.walk(n):
+                    if isinstance(c, ast.Call):
+                        in_comp.add(id(c))
+        for c in calls:
+            self.call(cls, fn, c, env, guards, depth, stack, layerish, id(c) in in_comp)
+
+    def call(self, cls, fn, c, env, guards, depth, stack, layerish, in_comp):
+        f = c.func
+        if not isinstance(f, ast.Attribute):
+            return
+        name = f.attr
+        recv_node = f.value
+        # raw list mutations
+        if isinstance(recv_node, ast.Attribute) and recv_node.attr == "_layers" and name in LISTMUT:
+            self.emit("mut", _owner(_norm(_subst(recv_node.value, env))), "_layers." + name, guards)
+            return
+        if isinstance(recv_node, ast.Attribute) and recv_node.attr in STORED and name in LISTMUT:
+            if (cls, fn.name) not in EXEMPT_STORE:
+                self.emit("store", _owner(_norm(_subst(recv_node.value, env))), recv_node.attr + "." + name, guards)
+            return
+        # super().m / super(C, self).m
+        recv = _norm(_subst(recv_node, env))
+        if name in LISTMUT and recv.endswith("._layers"):            # the list reached through a local alias
+            self.emit("mut", _owner(recv[:-len("._layers")]), "_layers." + name, guards)
+            return
+        if name in LISTMUT and any(recv.endswith("." + a) for a in STORED) and (cls, fn.name) not in EXEMPT_STORE:
+            self.emit("store", _owner(recv.rsplit(".", 1)[0]), recv.rsplit(".", 1)[1] + "." + name, guards)
+            return
+        is_super = isinstance(recv_node, ast.Call) and isinstance(recv_node.func, ast.Name) and recv_node.func.id == "super"
+        if name == "_compute_clipping_layers":
+            owner = recv[4:-1] if recv.startswith("doc(") and recv.endswith(")") else recv
+            self.compute(owner, guards, depth, stack)
+            return
+        if name == "_clear_clipping_layers":
+            if (cls, fn.name) != ("PSDImage", "_compute_clipping_layers"):
+                self.emit("other", "%s._clear_clipping_layers() outside the pass, in %s.%s" % (recv, cls, fn.name))
+            return
+        cands = [k for k in self.api.by_name.get((name, "method"), []) if (k, name, "method") in self.effectful]
+        if not cands or name == "__init__":
+            return
+        raw_recv = ast.unparse(recv_node)
+        root = re.match(r"[A-Za-z_]\w*", raw_recv)
+        root = root.group(0) if root else ""
+        if raw_recv in ("self", "cls") or is_super:
+            start = cls
+            if is_super:
+                m = self.api.mro(cls)
+                start = m[1] if len(m) > 1 else None
+            target = self.api.resolve(start, name) if start else None
+            if target is None and cls == "GroupMixin" and len(cands) == 1:
+                target = cands[0]                                    # a mixin calls methods of its host
+            targets = [target] if target is not None else cands
+        elif raw_recv in self.api.classes:
+            target = self.api.resolve(raw_recv, name)
+            targets = [target] if target is not None else []
+        else:
+            layer_like = self._layerish_expr(raw_recv, layerish) or recv.endswith(".parent") or recv.startswith("doc(")
+            if root in self.api.imported and root not in self.api.classes and root not in layerish:
+                return                                               # a module or a foreign class
+            if name in LISTNAMES and not layer_like:
+                return                                               # a plain list
+            targets = cands
+        targets = [t for t in targets if (t, name, "method") in self.effectful]
+        if not targets:
+            return
+        # flatten every candidate on the side; only those that do something count
+        results = []
+        for target in targets:
+            key = (target, name)
+            if key in stack or depth >= MAX_DEPTH:
+                continue                                             # its effects are those of the outer instance
+            callee = self.api.methods[(target, name, "method")]
+            params = [a.arg for a in callee.args.args]
+            is_static = any(ast.unparse(d) == "staticmethod" for d in callee.decorator_list)
+            cenv, clayer = {}, set()
+            if not is_static and params:
+                cenv[params[0]] = recv
+                clayer.add(params[0])
+                params = params[1:]
+            for p, a in zip(params, c.args):
+                if isinstance(a, ast.Starred):
+                    break
+                cenv[p] = _norm(_subst(a, env))
+                if self._layerish_expr(ast.unparse(a), layerish):
+                    clayer.add(p)
+            for kw in c.keywords:
+                if kw.arg is not None:
+                    cenv[kw.arg] = _norm(_subst(kw.value, env))
+                    if self._layerish_expr(ast.unparse(kw.value), layerish):
+                        clayer.add(kw.arg)
+            defaults = callee.args.defaults
+            allp = [a.arg for a in callee.args.args]
+            for p, d in zip(allp[len(allp) - len(defaults):], defaults):
+                if p not in cenv:
+                    cenv[p] = ast.unparse(d)
+            saved = self.events
+            self.events = []
+            self.flatten(target, callee, cenv, guards, depth + 1, stack + [key], clayer)
+            got, self.events = self.events, saved
+            if any(e[0] in ("mut", "rec", "store", "other") for e in got):
+                results.append((target, got))
+        if not results:
+            return
+        if in_comp:
+            self.emit("other", "%s.%s() inside a comprehension, in %s.%s" % (recv, name, cls, fn.name))
+            return
+        strip = lambda evs: [tuple(re.sub(r"g\d+:", "g:", str(x)) for x in e) for e in evs]
+        if any(strip(r[1]) != strip(results[0][1]) for r in results[1:]):
+            self.emit("other", "%s.%s(): %d candidate classes with different effects, in %s.%s"
+                      % (recv, name, len(results), cls, fn.name))
+            return
+        self.events += results[0][1]
+
+    def compute(self, owner, guards, depth, stack):
+        """Inline `_compute_clipping_layers`: the recomputation is its call of `_clear_clipping_layers()`."""
+        fn = self.api.methods.get(("PSDImage", "_compute_clipping_layers", "method"))
+        if fn is None:
+            self.emit("other", "PSDImage._compute_clipping_layers not found")
+            return
+        outer = [g for g in guards if not _psd_guard(g, owner)]
+        found = []
+
+        def walk(stmts, gs):
+            for st in stmts:
+                if isinstance(st, ast.If):
+                    self.gid += 1
+                    t = _norm(ast.unparse(st.test))
+                    walk(st.body, gs + ["g%d:%s" % (self.gid, t)])
+                    walk(st.orelse, gs + ["g%d:not(%s)" % (self.gid, t)])
+                    if self._terminates(st.body):
+                        gs = gs + ["g%d:not(%s)" % (self.gid, t)]
+                    elif st.orelse and self._terminates(st.orelse):
+                        gs = gs + ["g%d:%s" % (self.gid, t)]
+                elif isinstance(st, (ast.For, ast.While)):
+                    self.gid += 1
+                    walk(st.body, gs + ["g%d:loop" % self.gid])
+                elif isinstance(st, ast.Expr) and isinstance(st.value, ast.Call) and \
+                        ast.unparse(st.value.func) == "self._clear_clipping_layers":
+                    found.append(gs)
+
+        walk(fn.body, [])
+        if not found:
+            self.emit("other", "_compute_clipping_layers() does not call self._clear_clipping_layers()")
+            return
+        for gs in found:
+            self.emit("rec", owner, outer + gs)
+
+
+def _psd_guard(g, owner):
+    """Is the guard `gN:<test>` nothing but "the document of `owner` exists"?"""
+    t = g.split(":", 1)[1]
+    pats = [r"doc\(%s\) is not None" % re.escape(owner), r"not\(doc\(%s\) is None\)" % re.escape(owner)]
+    return any(re.fullmatch(p, t) for p in pats)
+
+
+def _segments(events):
+    segs, cur = [], []
+    for ev in events:
+        if ev[0] in ("loop_begin", "loop_end"):
+            if cur:
+                segs.append(cur)
+            cur = []
+        else:
+            cur.append(ev)
+    if cur:
+        segs.append(cur)
+    return segs
+
+
+def _clear_iter(api):
+    fn = api.methods.get(("PSDImage", "_clear_clipping_layers", "method"))
+    if fn is None:
+        return "other", "?"
+    loops = [s for s in fn.body if isinstance(s, ast.For)]
+    if len(loops) != 1 or len([s for s in fn.body if not (isinstance(s, ast.Expr) and isinstance(s.value, ast.Constant))]) != 1:
+        return "other", ast.unparse(fn)
+    it = ast.unparse(loops[0].iter)
+    if it in ("self.descendants()", "self.descendants(include_clip=True)", "self.descendants(True)"):
+        return "all", it
+    if it in ("self.descendants(include_clip=False)", "self.descendants(False)"):
+        return "skipClipping", it
+    return "other", it
+
+
+def _body_src(fn):
+    body = [s for s in fn.body if not (isinstance(s, ast.Expr) and isinstance(s.value, ast.Constant))]
+    return "\n".join(ast.unparse(s) for s in body)
+
+
+def read_current():
+    api = _Api()
+    fl = _Flat(api)
+    fl.compute_effectful()
+    rows = []
+    for (cls, name, kind), fn in sorted(api.methods.items(), key=lambda kv: (kv[0][0], kv[1].lineno)):
+        if kind == "getter" and False:
+            continue
+        if name.startswith("_") and not (name.startswith("__") and name.endswith("__")):
+            continue
+        if name in ("__init__", "__new__"):
+            continue
+        fl.events, fl.gid = [], 0
+        fl.flatten(cls, fn, {}, [], 0, [(cls, name)], {"self", "cls"})
+        if any(e[0] in ("mut", "store") for e in fl.events):
+            label = "%s.%s" % (cls, name) + ("" if kind == "method" else "." + kind)
+            rows.append((label, _segments(fl.events)))
+    init = []
+    fn = api.methods.get(("PSDImage", "__init__", "method"))
+    if fn is not None:
+        fl.events, fl.gid = [], 0
+        fl.flatten("PSDImage", fn, {}, [], 0, [("PSDImage", "__init__")], {"self"})
+        init = [e for e in fl.events if e[0] not in ("loop_begin", "loop_end")]
+    kind, it = _clear_iter(api)
+    comp = api.methods.get(("PSDImage", "_compute_clipping_layers", "method"))
+    desc = api.methods.get(("GroupMixin", "descendants", "method"))
+    compute_body = []
+    if comp is not None:
+        for s in comp.body:
+            if isinstance(s, ast.Expr) and isinstance(s.value, ast.Constant):
+                continue
+            if isinstance(s, ast.FunctionDef):
+                compute_body.append("def " + s.name)
+            elif isinstance(s, ast.Expr) and isinstance(s.value, ast.Call) and \
+                    ast.unparse(s.value.func) in ("self._clear_clipping_layers", "rec_helper"):
+                compute_body.append(ast.unparse(s))
+            elif isinstance(s, (ast.If, ast.For, ast.While, ast.Try, ast.With, ast.Return, ast.Raise)):
+                compute_body.append(ast.unparse(s).split("\n")[0])     # anything that can skip or repeat the two steps
+    return {"rows": rows, "init": init, "clear_kind": kind, "clear_iter": it, "compute_body": compute_body,
+            "descendants_body": _body_src(desc) if desc is not None else "?"}
+
+
+def _lstr(s):
+    return '"' + s.replace("\\", "\\\\").replace('"', '\\"').replace("\n", "\\n") + '"'
+
+
+def _lean_eff(e):
+    strs = lambda xs: "[" + ", ".join(_lstr(x) for x in xs) + "]"
+    if e[0] == "mut":
+        return ".mutate %s %s %s" % (_lstr(e[1]), _lstr(e[2]), strs(e[3]))
+    if e[0] == "rec":
+        return ".recomp %s %s" % (_lstr(e[1]), strs(e[2]))
+    if e[0] == "store":
+        return ".store %s %s %s" % (_lstr(e[1]), _lstr(e[2]), strs(e[3]))
+    return ".other %s" % _lstr(e[1])
+
+
+def gen_clip_current(ctx):
+    try:
+        info = read_current()
+    except Exception as e:  # noqa: a source the reader cannot digest is a broken tie, never an infrastructure error
+        info = {"rows": [("<extractor>", [[("other", "extract_c15.read_current failed: %s: %s" % (type(e).__name__, e))]])],
+                "init": [], "clear_kind": "other", "clear_iter": "?", "compute_body": [], "descendants_body": "?"}
+        ctx.notes.append("extract_c15.read_current could not read the current source (%s): sentinel table written" % type(e).__name__)
+    effs = lambda es: "[" + ", ".join(_lean_eff(e) for e in es) + "]"
+    rows = ",\n".join("    ⟨%s, [%s]⟩" % (_lstr(n), ",\n      ".join(effs(s) for s in segs)) for n, segs in info["rows"])
+    src = f"""import PsdVerif.Model.ClipState
+namespace PsdVerif.Generated.ClipCurrent
+open PsdVerif.ClipState
+
+/-- Every public method of the API classes whose flattened body changes an input of the clipping relation
+    (children lists, clipping flag, blend mode of a record or divider block, compatibility mode) or assigns the
+    stored relation: its straight-line segments, each a list of effects (see harness/extract_c15.py). -/
+def table : Table :=
+  {{ init := {effs(info["init"])},
+    rows := [
+{rows}],
+    clearIter := .{info["clear_kind"]} }}
+
+/-- the iteration of `_clear_clipping_layers` as written -/
+def clearIterSrc : String := {_lstr(info["clear_iter"])}
+/-- the top-level statements of `_compute_clipping_layers` (first line of each) -/
+def computeBody : List String := [{", ".join(_lstr(x) for x in info["compute_body"])}]
+/-- `GroupMixin.descendants` without its docstring -/
+def descendantsBody : String := {_lstr(info["descendants_body"])}
+
+end PsdVerif.Generated.ClipCurrent
+"""
+    ctx.write_generated("ClipCurrent", src)
+    return info
